@@ -164,9 +164,26 @@ func checkCopy(e *Env, r *cliRunner, c *CliCase) {
 			return
 		}
 	}
-	if c.EnvFault == "layout-mismatch" {
+	// a layout mismatch, read off the world as it is (not off the generator's
+	// intention): an existing destination with another archive list, or a
+	// destination to create whose requested layout differs from the source's
+	mismatch, mm := false, ""
+	for _, p := range pairs {
+		sf, okS := srcs[p[0]]
+		df, okD := dsts[p[1]]
+		if !okS || sf.Absent {
+			continue
+		}
+		if okD && !df.Absent && df.Layout.String() != sf.Layout.String() {
+			mismatch, mm = true, fmt.Sprintf("source %s, existing destination %s", sf.Layout, df.Layout)
+		}
+		if (!okD || df.Absent) && c.Cmd.Create.String() != sf.Layout.String() {
+			mismatch, mm = true, fmt.Sprintf("source %s, destination to create %s", sf.Layout, c.Cmd.Create)
+		}
+	}
+	if mismatch {
 		if res.err == nil {
-			e.Violate("C08.layout-mismatch", "copy between different layouts (%s vs %s) reported success", srcs[pairs[0][0]].Layout, dsts[pairs[0][1]].Layout)
+			e.Violate("C08.layout-mismatch", "copy between different layouts (%s) reported success", mm)
 			return
 		}
 		for _, p := range pairs {
@@ -376,7 +393,19 @@ func checkDiff(e *Env, r *cliRunner, c *CliCase) {
 		e.Skip("from-after-until")
 		return
 	}
-	if c.EnvFault == "layout-mismatch" {
+	mismatch := false
+	for _, rel := range rels {
+		drel := rel
+		if c.Cmd.Dest != "" && !hasMeta(c.Cmd.Src) {
+			drel = c.Cmd.Dest
+		}
+		sf, okS := srcs[rel]
+		df, okD := dsts[drel]
+		if okS && okD && !sf.Absent && !df.Absent && sf.Layout.String() != df.Layout.String() {
+			mismatch = true
+		}
+	}
+	if mismatch {
 		if res.err == nil || errors.Is(res.err, cmd.ErrDiffFound) {
 			e.Violate("C09.layout-mismatch", "diff between different layouts returned %v; an error other than 'difference found' is required", res.err)
 		} else {
@@ -1359,7 +1388,8 @@ func checkGenerate(e *Env, r *cliRunner, c *CliCase) {
 		return
 	}
 	now := res.now
-	if c.EnvFault == "dest-exists" {
+	if before != nil {
+		// the destination existed (read off the world, not off the generator's label)
 		if res.err == nil {
 			e.Violate("C20.no-overwrite", "generate onto an existing file reported success")
 			return
